@@ -75,12 +75,29 @@ def npz_case(ctx, case):
     td = env.generator(batch_size=[B])
     d = scratch()
     sig = dict(kind="npz", env=name)
+    if case.get("dtypes"):
+        # hand-supplied instances in other precisions / with extra typed columns (the documented save format is "a TensorDict"):
+        # double-precision coordinates, half-precision and integer / bool side data must come back with dtype and bits intact
+        for k in list(td.keys()):
+            if td[k].dtype == torch.float32 and case["dtypes"] == "float64":
+                td[k] = td[k].double() + 1e-9  # not representable in float32
+        td["side_f16"] = torch.arange(B * 3).reshape(B, 3).to(torch.float16) / 7
+        td["side_i64"] = torch.arange(B) * 2**40 + 3
+        td["side_i32"] = torch.arange(B).to(torch.int32) - 2
+        td["side_bool"] = torch.arange(B) % 2 == 0
+        td["side_f64"] = torch.arange(B).double() / 3
+        sig["dtypes"] = case["dtypes"]
+        ctx.count("c19_npz_dtype_cases")
     try:
         f = os.path.join(d, "x.npz")
         save_tensordict_to_npz(td, f, compress=case.get("compress", False))
         td2 = load_npz_to_tensordict(f)
         ctx.evaluation()
         ctx.count("c19_npz_roundtrips")
+        if case.get("dtypes"):
+            if tuple(td2.batch_size) == (B,) and same_td(ctx, sig, td, td2, "npz save/load"):
+                ctx.nontrivial_case(dict(c=case))
+            return
         if tuple(td2.batch_size) != (B,):
             ctx.violation(dict(sig, q="batch_size"), f"batch size {tuple(td2.batch_size)} after load, was {(B,)}", None)
             return
